@@ -306,7 +306,11 @@ fn expectation(r: &Row) -> Expect {
 
 fn check_row(ctx: &Ctx, scratch: &Path, r: &Row) -> Check {
     ctx.eval();
-    let root = scratch.join(format!("row-{:016x}", hash_of(&row_json(r).to_string())));
+    check_row_pure(scratch, r)
+}
+
+fn check_row_pure(scratch: &Path, r: &Row) -> Check {
+    let root = scratch.join(format!("row-{:016x}-{}", hash_of(&row_json(r).to_string()), crate::core::uniq()));
     let _ = fsutil::force_remove(&root);
     let d = bprun::setup_dirs(&root);
     let name = EXE_NAMES[r.exe];
@@ -648,13 +652,20 @@ pub fn run(ctx: &Ctx) {
             break;
         }
     }
-    ctx.run_prop("product", row_strategy(), ctx.tier.pick(3000, 150_000), row_json, |r| {
-        classify(ctx, r);
-        if (ctx.samples_len() < 2 || hash_of(&row_json(r).to_string()) % 499 == 0) {
-            ctx.sample(6, || row_json(r));
-        }
-        check_row(ctx, &scratch.path, r)
-    });
+    ctx.run_prop_par(
+        "product",
+        row_strategy(),
+        ctx.tier.pick(12_000, 300_000),
+        row_json,
+        |r| (check_row_pure(&scratch.path, r), ()),
+        |r, ()| {
+            ctx.eval();
+            classify(ctx, r);
+            if (ctx.samples_len() < 2 || hash_of(&row_json(r).to_string()) % 499 == 0) {
+                ctx.sample(6, || row_json(r));
+            }
+        },
+    );
 }
 
 pub fn replay(ctx: &Ctx, _sub: &str, case: &Value) {
